@@ -3234,6 +3234,49 @@ pub fn suite_inline(ctx: &mut Ctx) {
         ctx.count(&format!("inline.cell.long.periodic{}.{}", periodic as u8, mode.name()));
         inline_pair_mode(ctx, ALGS[((i / 8) % 3) as usize], mode, &old, &new, &[None, Some(0)]);
     }
+    // LOPSIDED Replace blocks: k >= 4 lines on one side against one or two lines on the other (the line-count ratio gate
+    // `upper_seq_ratio < 0.5` is on: the op must expand plainly, whatever the lines look like), where the few lines ARE close
+    // word-level edits of the first lines of the many -- and the same blocks just below the gate (3 : 1, 2 : 1)
+    let nlop = if ctx.tier == Tier::Quick { 240u64 } else { 2400 };
+    for i in 0..nlop {
+        if !ctx.take() {
+            continue;
+        }
+        let mut rng = case_rng(ctx, 0x10b51ded, i);
+        let few = 1 + (i % 2) as usize;
+        let many = few * [2usize, 3, 4, 5, 7][(i / 2 % 5) as usize] + rng.below(2);
+        let term = if i % 7 == 0 { "\r\n" } else { "\n" };
+        let mk_line = |rng: &mut Rng| -> Vec<String> { (0..rng.range(3, 7)).map(|_| LW[rng.below(LW.len())].to_string()).collect() };
+        let many_lines: Vec<Vec<String>> = (0..many).map(|_| mk_line(&mut rng)).collect();
+        let few_lines: Vec<Vec<String>> = (0..few)
+            .map(|t| {
+                let mut l = many_lines[t].clone();
+                let at = rng.below(l.len());
+                match rng.below(3) {
+                    0 => l[at] = "changed".to_string(),
+                    1 => l.insert(at, "added".to_string()),
+                    _ => l.push("tail".to_string()),
+                }
+                l
+            })
+            .collect();
+        let render = |ls: &[Vec<String>]| -> Vec<u8> { ls.iter().map(|l| format!("{}{}", l.join(" "), term)).collect::<String>().into_bytes() };
+        let ctxl = format!("same line{}", term).into_bytes();
+        let mut old = ctxl.clone();
+        old.extend_from_slice(&render(&many_lines));
+        let mut new = ctxl.clone();
+        new.extend_from_slice(&render(&few_lines));
+        if i % 3 != 0 {
+            old.extend_from_slice(&ctxl);
+            new.extend_from_slice(&ctxl);
+        }
+        if (i / 10) % 2 == 1 {
+            std::mem::swap(&mut old, &mut new);
+        }
+        let mode = if (i / 20) % 2 == 0 { Mode::Str } else { Mode::Bytes };
+        ctx.count("inline.lopsided_block_pairs");
+        inline_pair_mode(ctx, ALGS[((i / 40) % 3) as usize], mode, &old, &new, &[None, Some(0)]);
+    }
     // [u8] lines with broken UTF-8 (handled since the [u8] Unicode tokenizers report real offsets): random positions,
     // and in particular inside the changed tail of a line that ends in \r\n, \n, \r or nothing
     let nbad = if ctx.tier == Tier::Quick { 400u64 } else { 4000 };
